@@ -266,6 +266,86 @@ impl ServerProc {
         }
     }
 
+    /// user + system CPU time of the process so far, in clock ticks
+    pub fn cpu_ticks(&self) -> Option<u64> {
+        let s = std::fs::read_to_string(format!("/proc/{}/stat", self.pid())).ok()?;
+        let rest = &s[s.rfind(')')? + 2..];
+        let f: Vec<&str> = rest.split_whitespace().collect();
+        Some(f.get(11)?.parse::<u64>().ok()? + f.get(12)?.parse::<u64>().ok()?)
+    }
+
+    /// bytes waiting in the receive queues of the sockets bound to the server's UDP port
+    pub fn rx_queued(&self) -> Option<u64> {
+        let txt = std::fs::read_to_string("/proc/net/udp").ok()?;
+        let want = format!(":{:04X}", self.cfg.port);
+        let mut total = 0u64;
+        for line in txt.lines().skip(1) {
+            let cols: Vec<&str> = line.split_whitespace().collect();
+            if cols.len() >= 5 && cols[1].ends_with(&want) {
+                total += u64::from_str_radix(cols[4].split(':').nth(1)?, 16).ok()?;
+            }
+        }
+        Some(total)
+    }
+
+    /// true iff every thread of the process is sleeping (state S: blocked in poll / sleep), i.e.
+    /// none is running or waiting for a CPU
+    pub fn all_threads_sleeping(&self) -> Option<bool> {
+        let rd = std::fs::read_dir(format!("/proc/{}/task", self.pid())).ok()?;
+        let mut any = false;
+        for e in rd.flatten() {
+            let s = std::fs::read_to_string(e.path().join("stat")).ok()?;
+            let rest = &s[s.rfind(')')? + 2..];
+            any = true;
+            if !rest.starts_with('S') {
+                return Some(false);
+            }
+        }
+        if any {
+            Some(true)
+        } else {
+            None
+        }
+    }
+
+    /// At both ends of the window every thread of the server is blocked (not running, not waiting
+    /// for a CPU) and its UDP receive queue holds the same number of bytes: the server is not
+    /// working on anything and is not going to. Whatever it has not answered by now is lost (queue
+    /// empty) or stranded (queue non-empty). This is evidence about the server's state, not about
+    /// elapsed time: on an overloaded machine a slow server shows runnable threads or a queue
+    /// that is still draining.
+    pub fn quiescent(&self, window: Duration) -> bool {
+        let (s0, q0) = (self.all_threads_sleeping(), self.rx_queued());
+        std::thread::sleep(window);
+        let (s1, q1) = (self.all_threads_sleeping(), self.rx_queued());
+        match (s0, s1, q0, q1) {
+            (Some(true), Some(true), Some(a), Some(b)) => a == b,
+            // an exited process is as quiet as it gets
+            (None, _, _, _) | (_, None, _, _) => true,
+            _ => false,
+        }
+    }
+
+    /// wait (up to `cap`) until the server is quiescent for two consecutive windows
+    pub fn wait_quiescent(&mut self, cap: Duration) -> bool {
+        let t0 = Instant::now();
+        let mut streak = 0;
+        while t0.elapsed() < cap {
+            if self.exited().is_some() {
+                return true;
+            }
+            if self.quiescent(Duration::from_millis(150)) {
+                streak += 1;
+                if streak >= 2 {
+                    return true;
+                }
+            } else {
+                streak = 0;
+            }
+        }
+        false
+    }
+
     /// deliver the signal to one particular thread of the process (tgkill), as `kill <tid>` does
     pub fn signal_thread(&self, tid: i32, sig: i32) {
         unsafe {
